@@ -130,6 +130,15 @@ class SQLParser:
                 break
         return "".join(column_string)
 
+    @classmethod
+    def _pop_as_int(cls, scanner: TokenScanner) -> int:
+        """将当前指针位置的节点解析为整数并移动指针，如果无法解析则抛出 SqlParseError"""
+        source = scanner.pop_as_source()
+        try:
+            return int(source)
+        except ValueError as error:
+            raise SqlParseError(f"无法将 {source} 解析为整数") from error
+
     # ------------------------------ 枚举类节点的解析方法 ------------------------------
 
     @classmethod
@@ -372,7 +381,7 @@ class SQLParser:
             if scanner.search_and_move_one_type_str_use_upper("FOLLOWING"):
                 return node.ASTWindowRowItem(row_type=static.EnumWindowRowType.FOLLOWING, is_unbounded=True)
             raise SqlParseError(f"无法解析的窗口函数限制行: {scanner}")
-        row_num = int(scanner.pop_as_source())
+        row_num = cls._pop_as_int(scanner)
         if scanner.search_and_move_one_type_str_use_upper("PRECEDING"):
             return node.ASTWindowRowItem(row_type=static.EnumWindowRowType.PRECEDING, row_num=row_num)
         if scanner.search_and_move_one_type_str_use_upper("FOLLOWING"):
@@ -496,9 +505,9 @@ class SQLParser:
             parenthesis_scanner = inner_scanner.pop_as_children_scanner()
             cast_params: Optional[List[int] | Tuple[int, ...]] = []
             if not parenthesis_scanner.is_finish:
-                cast_params.append(int(parenthesis_scanner.pop_as_source()))
+                cast_params.append(cls._pop_as_int(parenthesis_scanner))
             while parenthesis_scanner.search_and_move_one_type_str(","):
-                cast_params.append(int(parenthesis_scanner.pop_as_source()))
+                cast_params.append(cls._pop_as_int(parenthesis_scanner))
             cast_params = tuple(cast_params)
         else:
             cast_params = None
@@ -1646,7 +1655,7 @@ class SQLParser:
         max_length = None
         if scanner.search_one_type_mark(AMTMark.PARENTHESIS):
             parenthesis_scanner = scanner.pop_as_children_scanner()
-            max_length = int(parenthesis_scanner.pop_as_source())
+            max_length = cls._pop_as_int(parenthesis_scanner)
             parenthesis_scanner.close()
         return node.ASTIndexColumn(name=name, max_length=max_length)
 
@@ -1673,7 +1682,7 @@ class SQLParser:
         columns = cls._get_index_columns(scanner)
         using = scanner.pop_as_source() if scanner.search_and_move_one_type_str_use_upper("USING") else None
         comment = scanner.pop_as_source() if scanner.search_and_move_one_type_str_use_upper("COMMENT") else None
-        key_block_size = (int(scanner.pop_as_source())
+        key_block_size = (cls._pop_as_int(scanner)
                           if scanner.search_and_move_two_type_str_use_upper("KEY_BLOCK_SIZE", "=") else None)
         return node.ASTPrimaryIndexExpression(columns=columns, using=using, comment=comment,
                                               key_block_size=key_block_size)
@@ -1693,7 +1702,7 @@ class SQLParser:
         columns = cls._get_index_columns(scanner)
         using = scanner.pop_as_source() if scanner.search_and_move_one_type_str_use_upper("USING") else None
         comment = scanner.pop_as_source() if scanner.search_and_move_one_type_str_use_upper("COMMENT") else None
-        key_block_size = (int(scanner.pop_as_source())
+        key_block_size = (cls._pop_as_int(scanner)
                           if scanner.search_and_move_two_type_str_use_upper("KEY_BLOCK_SIZE", "=") else None)
         return node.ASTUniqueIndexExpression(name=name, columns=columns, using=using, comment=comment,
                                              key_block_size=key_block_size)
@@ -1713,7 +1722,7 @@ class SQLParser:
         columns = cls._get_index_columns(scanner)
         using = scanner.pop_as_source() if scanner.search_and_move_one_type_str_use_upper("USING") else None
         comment = scanner.pop_as_source() if scanner.search_and_move_one_type_str_use_upper("COMMENT") else None
-        key_block_size = (int(scanner.pop_as_source())
+        key_block_size = (cls._pop_as_int(scanner)
                           if scanner.search_and_move_two_type_str_use_upper("KEY_BLOCK_SIZE", "=") else None)
         return node.ASTNormalIndexExpression(name=name, columns=columns, using=using, comment=comment,
                                              key_block_size=key_block_size)
@@ -1732,7 +1741,7 @@ class SQLParser:
         columns = cls._get_index_columns(scanner)
         using = scanner.pop_as_source() if scanner.search_and_move_one_type_str_use_upper("USING") else None
         comment = scanner.pop_as_source() if scanner.search_and_move_one_type_str_use_upper("COMMENT") else None
-        key_block_size = (int(scanner.pop_as_source())
+        key_block_size = (cls._pop_as_int(scanner)
                           if scanner.search_and_move_two_type_str_use_upper("KEY_BLOCK_SIZE", "=") else None)
         return node.ASTFulltextIndexExpression(name=name, columns=columns, using=using, comment=comment,
                                                key_block_size=key_block_size)
@@ -1979,7 +1988,7 @@ class SQLParser:
                 engine = scanner.pop_as_source()
             elif scanner.search_and_move_one_type_str_use_upper("AUTO_INCREMENT"):
                 scanner.search_and_move_one_type_str("=")
-                auto_increment = int(scanner.pop_as_source())
+                auto_increment = cls._pop_as_int(scanner)
             elif scanner.search_and_move_two_type_str_use_upper("DEFAULT", "CHARSET"):
                 scanner.search_and_move_one_type_str("=")
                 default_charset = scanner.pop_as_source()
